@@ -20,10 +20,7 @@ Arguments handle_waiting_for_finished_ack : simpl never.
 Arguments deferred_lost_segment_handling : simpl never.
 
 
-Definition nak_seq (h : hdr) (eos maxn : Z) (mdm : bool) (tr : tracker) : list pdu :=
-  let '(pre, acc0) := if mdm then (if 1 =? maxn then ([PNak h 0 eos [(0, 0)]], []) else ([], [(0, 0)])) else ([], []) in
-  let '(ps, rest) := nak_split h eos maxn acc0 tr in
-  pre ++ ps ++ (match rest with [] => [] | _ => [PNak h 0 eos rest] end).
+(* nak_seq (the PDUs of one NAK sequence) is defined in RetryProofs.v *)
 
 Lemma enq_eq : forall l s,
   enq l s = s <| d_queue := d_queue s ++ l |> <| d_ready := d_ready s + zlen l |>.
@@ -52,7 +49,7 @@ Proof.
   unfold now_d in *. rewrite Hto. cbn [negb].
   rewrite bind_ret, bind_gp. cbn [negb andb].
   replace (p_nak_counter (d_p s) + 1 =? r_nak_limit r) with false by (symmetry; apply Z.eqb_neq; exact Hcnt).
-  unfold conf. rewrite bind_gp, Hm. cbv zeta. rewrite bind_gp, bind_gp.
+  rewrite bind_ret. unfold conf. rewrite bind_gp, Hm. cbv zeta. rewrite bind_gp, bind_gp.
   unfold nak_seq.
   destruct (if p_md_missing (d_p s) then _ else _) as [pre acc0].
   destruct (nak_split _ _ _ acc0 _) as [ps rest].
@@ -170,13 +167,14 @@ Lemma nif_limit_cancelled : forall k mdm fstat fcond disp tmo c ackt ackc nw fs 
 Proof.
   intros k mdm fstat fcond disp tmo c ackt ackc nw fs lg Hmiss Hc.
   assert (c + 1 = r_nak_limit r) as Hc' by (rewrite HN; exact Hc).
+  assert (get_fault_handler (l_faults cfg) C_NAK_LIMIT <> Some FH_IGNORE) as Hni by (rewrite Hfh; discriminate).
   pose proof (fun st => dst_nak_limit st r eos (nw, tmo)) as Hlim.
   pose proof df_cancel as Hdf.
   unfold mkG, wstep in *. cbn [non_idle_fsm].
   unfold fsm_advancement, step_is, get_step, handle_waiting_for_missing_metadata.
   destruct mdm; msimp.
   all: match goal with |- context[deferred_lost_segment_handling ?st] =>
-    rewrite (Hlim st eq_refl eq_refl eq_refl Hmiss eq_refl (timer_expired_d nw tmo) Hc') end.
+    rewrite (Hlim st eq_refl eq_refl eq_refl Hmiss eq_refl (timer_expired_d nw tmo) Hc' Hni) end.
   all: rewrite Hdf; cbn [fst snd].
   all: msimp; reflexivity.
 Qed.
